@@ -217,6 +217,30 @@ func runSelftest(repo, verif string, def *PropDef, kf *KFFile) SelftestResult {
 		}
 		st.Details = append(st.Details, d)
 	}
+	// 3. behaviour-preserving refactorings written by independent sub-agents: every rule must stay silent
+	rdirs, _ := filepath.Glob(filepath.Join(verif, "refactors", "*"))
+	sort.Strings(rdirs)
+	for _, dir := range rdirs {
+		name := "refactor:" + filepath.Base(dir)
+		ov, err := overlayFromPatch(repo, filepath.Join(dir, "patch.diff"))
+		if err != nil {
+			st.Stale = append(st.Stale, name+" (patch does not apply: "+err.Error()+")")
+			continue
+		}
+		_, fired, err := runVariant(repo, ov, def, kf, base, "\x00none", "")
+		if err != nil {
+			st.Stale = append(st.Stale, name+" (does not type-check)")
+			continue
+		}
+		st.Applied++
+		st.Negative++
+		if len(fired) == 0 {
+			st.NegativeSilent++
+		} else {
+			st.Missed = append(st.Missed, "negative-control:"+name+" FALSE ALARM")
+			st.Details = append(st.Details, map[string]any{"variant": name, "status": "FALSE ALARM on behaviour-preserving refactoring", "fired": fired})
+		}
+	}
 	return st
 }
 
